@@ -416,3 +416,102 @@ Proof.
            (fun pos a b => cmp_node_pos_id_range _ _ pos a b) 0 0 (Qle_refl 0) (Qle_refl 0) SOLVER_EPS eps0
            [mkrect 0 4 0 2; mkrect 1 5 1 3] cs); auto.
 Qed.
+
+(* ------------------------------------------------------------------ Solver::satisfy returns on the last pass's set
+   (Vpsc/StaticDag.static_no_throw_on_dag): what is left of the premise `returns` is Solver::refine *)
+From Adapt Require Vpsc.VpscInv Vpsc.StaticInvB Vpsc.StaticDag.
+
+Lemma weights_pos n fixed : Forall (fun x => 0 < x) (weights n fixed).
+Proof.
+  unfold weights. rewrite Forall_forall. intros x Hx. apply in_map_iff in Hx. destruct Hx as [i [<- _]].
+  destruct (existsb _ _); reflexivity.
+Qed.
+Lemma mkvars_wf d w : length w = length d -> Forall (fun x => 0 < x) w -> VpscSpec.wf_vars (mkvars d w).
+Proof.
+  intros Lw Pw i Hi. unfold mkvars in *. rewrite map_length, combine_length in Hi.
+  unfold VpscSpec.vget. set (f := fun dw : Q * Q => VpscSpec.mkvar (fst dw) (snd dw) 1).
+  rewrite (nth_indep _ VpscSpec.dvar (f (0, 0))) by (rewrite map_length, combine_length; exact Hi).
+  rewrite (map_nth f), combine_nth by (symmetry; exact Lw). unfold f. cbn [VpscSpec.wt VpscSpec.scl fst snd].
+  split; [|reflexivity]. rewrite Forall_forall in Pw. apply Pw. apply nth_In. lia.
+Qed.
+Lemma mkcons_wf d w cs :
+  length w = length d -> Forall (fun c => (cl c < length d)%nat /\ (cr c < length d)%nat) cs ->
+  VpscSpec.wf_cons (mkvars d w) (mkcons cs).
+Proof.
+  intros Lw Hr k Hk.
+  assert (Ln : length (mkvars d w) = length d) by (unfold mkvars; rewrite map_length, combine_length; lia).
+  unfold mkcons in Hk. apply in_map_iff in Hk. destruct Hk as [c [<- Hc]].
+  rewrite Forall_forall in Hr. destruct (Hr c Hc) as [A B]. cbn [VpscSpec.cl VpscSpec.cr]. rewrite Ln. split; assumption.
+Qed.
+
+(* the DFS order of Blocks::totalOrder is a topological order without repetition that lists every variable
+   (StaticInvB.is_dag, evaluated on every DAG instance of checks/c01.py, plus "no variable twice") *)
+Definition dfs_order_ok (d w : list Q) (cs : list constr) : Prop :=
+  StaticDag.dag_orderb (VpscModel.init (mkvars d w) (mkcons cs)) = true.
+
+(* PROVED part of `returns`: Solver::satisfy returns (no UnsatisfiedConstraint, fuel suffices) with every constraint
+   satisfied exactly *)
+Theorem static_satisfy_returns d w cs :
+  length w = length d -> Forall (fun x => 0 < x) w ->
+  Forall (fun c => (cl c < length d)%nat /\ (cr c < length d)%nat) cs ->
+  dfs_order_ok d w cs ->
+  exists s1, StaticModel.static_satisfy (StaticModel.static_init (mkvars d w) (mkcons cs)) = VpscModel.Ok s1 /\
+             forall c, (c < length cs)%nat -> 0 <= VpscModel.slack_val (StaticModel.base s1) c.
+Proof.
+  intros Lw Pw Hr D.
+  destruct (StaticDag.static_no_throw_on_dag (mkvars d w) (mkcons cs) (mkvars_wf d w Lw Pw) (mkcons_wf d w cs Lw Hr) D) as [s1 [E A]].
+  exists s1. split; [exact E|]. intros c Hc. apply A. unfold mkcons. rewrite map_length. exact Hc.
+Qed.
+
+Section PipelineStaticSatisfy.
+  Variable mklt : list Q -> nat -> nat -> bool.
+  Hypothesis mklt_strict : forall pos, strict (mklt pos).
+  Hypothesis mklt_total : forall pos, total_on (mklt pos) (length pos).
+  Hypothesis mklt_range : forall pos a b, mklt pos a b = true -> (a < length pos)%nat /\ (b < length pos)%nat.
+  Variables xB yB : Q.
+  Hypothesis xB_nonneg : 0 <= xB.
+  Hypothesis yB_nonneg : 0 <= yB.
+
+  (* removeoverlaps with the static solver model: no overlap, where the premise "the solver model returns on the last
+     pass" is reduced to (i) the DFS order of that acyclic set is a repetition-free topological order (a statement
+     about Blocks::totalOrder alone) and (ii) Solver::refine returns from the state Solver::satisfy produced, in which
+     every constraint already holds exactly.  Solver::satisfy itself is discharged by static_no_throw_on_dag. *)
+  Theorem pipeline_no_overlap_static_refine_partial rs fixed third r :
+    good_rects rs -> (Z.of_nat (length rs) <= 10000000)%Z ->
+    removeoverlaps mklt static_solve_fn xB yB rs fixed third = Some r ->
+    (forall rsl csl d, last_pass mklt xB yB third rsl csl d -> acyclic csl ->
+       dfs_order_ok d (weights (length rs) fixed) csl) ->
+    (forall rsl csl d s1, last_pass mklt xB yB third rsl csl d ->
+       StaticModel.static_satisfy (StaticModel.static_init (mkvars d (weights (length rs) fixed)) (mkcons csl)) = VpscModel.Ok s1 ->
+       (forall c, (c < length csl)%nat -> 0 <= VpscModel.slack_val (StaticModel.base s1) c) ->
+       exists s2, StaticModel.static_refine s1 = VpscModel.Ok s2) ->
+    no_overlap xB yB (ro_rects r).
+  Proof.
+    intros G Hn H Dfs Ref.
+    assert (eps0 : 0 <= SOLVER_EPS) by (unfold SOLVER_EPS, Qle; cbn; lia).
+    destruct (pipeline_chain_eps mklt mklt_strict mklt_total mklt_range xB yB xB_nonneg yB_nonneg
+                static_solve_fn SOLVER_EPS rs fixed third r eps0 static_solve_fn_length G H)
+      as (rsl & csl & d & LP & L & Ac & Rg & K).
+    cbv zeta in K. apply K; [|apply eps_bound; exact Hn].
+    assert (Ld : length d = length rs).
+    { destruct third; destruct LP as [_ ->]; unfold posX, posY; rewrite map_length; exact L. }
+    assert (Lw : length (weights (length rs) fixed) = length d) by (rewrite weights_length; congruence).
+    apply static_solve_fn_sat_eps; [exact Lw | exact Rg|].
+    destruct (static_satisfy_returns d _ csl Lw (weights_pos _ _) Rg (Dfs rsl csl d LP Ac)) as [s1 [E1 A1]].
+    destruct (Ref rsl csl d s1 LP E1 A1) as [s2 E2].
+    exists s2. unfold static_run, StaticModel.static_solve. rewrite E1. cbn [VpscModel.bind]. exact E2.
+  Qed.
+End PipelineStaticSatisfy.
+
+(* non-vacuity of the new hypotheses: on the two-rectangle example the DFS order is fine and refine returns *)
+Example pipeline_static_satisfy_example :
+  let mk := cmp_node_pos_id [0%Z; 1%Z] (fun i => i) in
+  let rs1 := [mkrect 0 4 0 2; mkrect 1 5 1 3] in
+  exists cs, generateYConstraints mk 0 (0 + EXTRA_GAP) rs1 = Some cs /\ cs <> [] /\
+             dfs_order_ok (posY (0 + EXTRA_GAP) rs1) [1; 1] cs /\
+             exists s1 s2, StaticModel.static_satisfy (StaticModel.static_init (mkvars (posY (0 + EXTRA_GAP) rs1) [1; 1]) (mkcons cs)) = VpscModel.Ok s1 /\
+                           StaticModel.static_refine s1 = VpscModel.Ok s2.
+Proof.
+  cbv zeta. eexists. split; [vm_compute; reflexivity|]. split; [discriminate|]. split; [vm_compute; reflexivity|].
+  eexists. eexists. split; vm_compute; reflexivity.
+Qed.
